@@ -45,27 +45,29 @@ theorem dequePop_indexError_iff {α : Type} (d : List α) (pos : Int) :
           exact absurd h (by simp)
   · exact dequePop_out_of_range d pos
 
-/-- `queue_find`: scans from the tail; the last match is returned and, with `remove`, exactly it
-    is taken out (nothing else moves).  No match: `None`, queue unchanged. -/
-theorem queueFind_spec {α : Type} (key : α → Bool) (rm : Bool) :
-    (∀ (A B : List α) (x : α), key x = true → (∀ b ∈ B, key b = false) →
+/-- `queue_find`: scans a snapshot from the tail; the last match is returned and, with `remove`,
+    exactly it is taken out (nothing else moves; handles are distinct objects, so it does not occur
+    earlier in the queue).  No match: `None`, queue unchanged. -/
+theorem queueFind_spec (key : Nat → Bool) (rm : Bool) :
+    (∀ (A B : List Nat) (x : Nat), key x = true → (∀ b ∈ B, key b = false) → x ∉ A →
       queueFind (A ++ x :: B) key rm = (some x, if rm then A ++ B else A ++ x :: B)) ∧
-    (∀ q : List α, (∀ b ∈ q, key b = false) → queueFind q key rm = (none, q)) :=
-  ⟨fun A B x hx hB => queueFind_last A B x key rm hx hB, fun q h => queueFind_absent q key rm h⟩
+    (∀ q : List Nat, (∀ b ∈ q, key b = false) → queueFind q key rm = (none, q)) :=
+  ⟨fun A B x hx hB hA => queueFind_last A B x key rm hx hB hA, fun q h => queueFind_absent q key rm h⟩
 
 /-- `queue_remove`: ValueError (and nothing changes — no new queue is produced) when the handle
     is absent; otherwise exactly that handle is removed. -/
 theorem queueRemove_spec (q : List Nat) (h : Nat) :
     (h ∉ q → queueRemove q h = none) ∧
-    (∀ A B, q = A ++ h :: B → h ∉ B → queueRemove q h = some (A ++ B)) :=
-  ⟨queueRemove_absent q h, fun A B e hB => e ▸ queueRemove_last A B h hB⟩
+    (∀ A B, q = A ++ h :: B → h ∉ A → queueRemove q h = some (A ++ B)) :=
+  ⟨queueRemove_absent q h, fun A B e hA => e ▸ queueRemove_mid A B h hA⟩
 
-/-- `call_pos(pos, cb)` on a deque = `list.insert(pos, handle)`: the callback runs after exactly
-    `pos` earlier entries, last if there are fewer; negative positions count from the tail. -/
-theorem callPos_spec {α : Type} (q : List α) (h : α) :
+/-- `call_pos(pos, cb)` on a deque = `list.insert(pos, handle)` for the new handle: the callback
+    runs after exactly `pos` earlier entries, last if there are fewer; negative positions count
+    from the tail. -/
+theorem callPos_spec (q : List Nat) (h : Nat) (hq : h ∉ q) :
     (∀ p : Nat, callPos q (p : Int) h = q.insertIdx (min p q.length) h) ∧
     (∀ k : Nat, 0 < k → callPos q (-(k : Int)) h = q.insertIdx (q.length - k) h) :=
-  ⟨fun p => callPos_nat q p h, fun k hk => callPos_neg q k hk h⟩
+  ⟨fun p => callPos_nat q p h hq, fun k hk => callPos_neg q k hk h hq⟩
 
 /-! ### the deque based loops are list-like -/
 
